@@ -12,11 +12,14 @@
                                             Writes <dir>/detect.json.
   seeded.py cleanup                         remove the scratch worktree, harness copy and build output.
 
-Scratch state lives under /tmp/seed (outside /repo and /verif) and is removed by `cleanup`.
+Scratch state lives under $SEED_DIR (default /tmp/seed; outside /repo and /verif) and is removed by
+`cleanup`. $SEED_SRC (default /verif) is the tree whose harness is copied, e.g. a builder's worktree.
 """
 import json, os, re, shutil, subprocess, sys, time
 
 SEED = os.environ.get("SEED_DIR", "/tmp/seed")
+# tree the scratch copy of the harness is taken from (a builder's worktree, default /verif)
+SRC = os.environ.get("SEED_SRC", "/verif").rstrip("/")
 REPO = f"{SEED}/repo"
 VCOPY = f"{SEED}/verif"
 ENV = dict(os.environ, CARGO_NET_OFFLINE="true", VERIF_JOBS=os.environ.get("VERIF_JOBS", "8"))
@@ -76,7 +79,7 @@ def verify(d):
 
 def ensure_vcopy():
     os.makedirs(VCOPY, exist_ok=True)
-    sh(f"rsync -a --delete --exclude .git --exclude harness/target --exclude .work --exclude seeded /verif/ {VCOPY}/")
+    sh(f"rsync -a --delete --exclude .git --exclude harness/target --exclude .work --exclude seeded {SRC}/ {VCOPY}/")
     p = f"{VCOPY}/harness/Cargo.toml"
     s = open(p).read().replace('"/repo/crates/', f'"{REPO}/crates/')
     open(p, "w").write(s)
